@@ -103,6 +103,19 @@ def body_whole(sel: int) -> bool:
             return fail(f"{lang}: the returned text is not the printed text ({len(a)} vs {len(b)} lines; first differences {diff})")
         res[lang] = ret
     cpp, py = res["cpp"], res["py"]
+    # --- the command-line entry point prints the same text (a fresh interpreter with the same hash seed)
+    if sel % 9 == 0 or sel == N_WHOLE - 1:
+        import os
+        import subprocess
+        for lang, gen_name in (("cpp", "goofit"), ("py", "goofitpy")):
+            env = dict(os.environ)
+            r = subprocess.run([sys.executable, "-m", "decaylanguage", "-G", gen_name, fn], capture_output=True, text=True, timeout=600, env=env)
+            if r.returncode != 0:
+                return fail(f"python -m decaylanguage -G {gen_name} {fn} exits with {r.returncode}: {r.stderr[-300:]}")
+            if gen.strip_time(r.stdout).rstrip("\n") != gen.strip_time(res[lang]).rstrip("\n"):
+                a, b = gen.strip_time(r.stdout).splitlines(), gen.strip_time(res[lang]).splitlines()
+                diff = [(x, y) for x, y in zip(a, b) if x != y][:2]
+                return fail(f"command line -G {gen_name}: output differs from the function call ({len(a)} vs {len(b)} lines, {diff})")
     # converting another file in between must not change what this file converts to (same language, A - B - A)
     other = gen.write_tmp("other.txt", gen.text_of([gen.FAMILY[0]], gen.EVENT_TYPES[0], "D0_radius 2 0.5 0\nOtherPar 0 1.0 0.5\n"))
     for lang in ("cpp", "py"):
